@@ -141,6 +141,8 @@ type FnCtx struct {
 	entryHeld []string
 	serves    []string // wait objects this activation serves (C15)
 	obProps   []string
+	reach      map[ssa.Value]heldLock  // values protected by a lock (reach.go)
+	reachLocal map[*ssa.Alloc]heldLock
 	localBoxes map[string][]string
 	curArgs []Val
 	loopDecs map[*loopInfo]string
@@ -1338,7 +1340,10 @@ func (fc *FnCtx) execBody(fn *ssa.Function, st0 *State, params []Val, freeVars [
 				continue
 			}
 			fc.waitCheckInstr(st, in)
-			if !fc.execInstr(fr, st, in, b, incoming) {
+			fc.reachBefore(st, in)
+			okInstr := fc.execInstr(fr, st, in, b, incoming)
+			fc.reachAfter(st, in)
+			if !okInstr {
 				alive = false
 				break
 			}
